@@ -5,7 +5,8 @@ import (
 )
 
 // Rename rewrites every variable name, function name and string literal in place.
-// Any of the three maps may be nil.
+// Any of the three maps may be nil. p must be a tree (no shared nodes): use p.Copy() first when
+// the program comes straight from a generator.
 func Rename(p *Program, vr, fn, str func(string) string) {
 	id := func(s string) string { return s }
 	if vr == nil {
@@ -118,6 +119,8 @@ func Concretise(p *Program, seed int64) {
 	if seed == 0 {
 		return
 	}
+	// generators share sub-expressions between positions: make p a tree before renaming in place
+	*p = *p.Copy()
 	suffix := []string{"", "x", "_1", "Zq", "9"}[int(seed%5+5)%5]
 	rot := int((seed/5)%26+26) % 26
 	Rename(p,
